@@ -161,6 +161,15 @@ def relHolds (o : Oracle) : Bool :=
   | some l => l.all id
   | none => o.onSubExpr
 
+/-- the predicates that are about the captured node as a whole (its sink, its source text), not about the type
+of an expression: a `$*xs` capture is one node there (its text is the source text its elements span) -/
+def aboutNode : Rel → Bool
+  | .sinkTypeIs | .textMatches | .textCmp => true
+  | _ => false
+
+/-- what a delegated relation means on a capture -/
+def relSpec (r : Rel) (o : Oracle) : Bool := if aboutNode r then o.onSubNode else relHolds o
+
 /-- an expression predicate on a capture: every element of a `$*xs` capture -/
 def onCap (p : Option Ex → Bool) : ExCap → Bool
   | .one e => p e
@@ -191,6 +200,6 @@ def specPred : Pred → Site → Option Bool
   | .isVariadic, s => some (onCap objectIsVariadicParam s.ex)
   | .nodeIs known tag, s => if known then some (nodeIs s.node tag) else none
   | .parentIs known tag, s => if known then some (nodeIs s.parent tag) else none
-  | .rel _, s => s.oracle.map relHolds
+  | .rel r, s => s.oracle.map (relSpec r)
 
 end SpecC02
